@@ -126,6 +126,12 @@ fn space(tier: Tier) -> DocSpace {
                 base: if *f == " " { None } else { Some(f.to_string()) },
             });
         }
+        // the default layout shifted by leading blank lines and indentation (equal after trim())
+        layouts.push(Layout {
+            name: "default after leading blank lines".into(),
+            dev: vec![(0, "\n\n \t".to_string())],
+            base: None,
+        });
         let n = layouts.len();
         s.entries.push(super::docspace::DocEntry {
             family: e.family,
